@@ -611,7 +611,7 @@ class GeneInfo:
                 # do not consider the same exon star
                 if starts_pos == 0 or exon_starts[starts_pos] > exon_starts[starts_pos - 1]:
                     cur_border = exon_starts[starts_pos]
-                    if last_border != -1 and current_state > 0:
+                    if last_border != -1 and current_state > 0 and cur_border > last_border:
                         exon_blocks.append((last_border, cur_border - 1))
                     last_border = cur_border
                 current_state += 1
